@@ -513,6 +513,19 @@ static void codec_group(const uint64_t *vals, size_t n) {
                 AFAIL("group.Decode", "roundtrip_mismatch", "%s: consumed %zu/%zu fields %u element %zu", cur_desc, r, wrote, fc, at);
             }
         }
+        {
+            /* the Put/Get convenience wrappers are the same codec */
+            uint8_t *d2 = vh_gb_get(G_AUX, wrote, 0xEE);
+            size_t w2 = 0, r2 = 0;
+            uint8_t fc2 = 0;
+            if (LIBCALL("group.Put", "wrapper", w2 = varintGroupPut(d2, in, (uint8_t)n)) && (w2 != wrote || memcmp(d2, enc, wrote))) {
+                AFAIL("group.Put", "roundtrip_mismatch", "%s: Put wrote %zu bytes, Encode %zu", cur_desc, w2, wrote);
+            }
+            uint64_t *o2 = out_buf(n);
+            if (LIBCALL("group.Get", "wrapper", r2 = varintGroupGet(enc, o2, &fc2, n)) && (r2 != wrote || fc2 != n || cmp_u64(o2, vals, n, &at))) {
+                AFAIL("group.Get", "roundtrip_mismatch", "%s: Get consumed %zu fields %u", cur_desc, r2, fc2);
+            }
+        }
         for (size_t i = 0; i < n; i++) {
             uint64_t g = ~vals[i];
             size_t rr = 0;
@@ -865,6 +878,38 @@ static void codec_bp128(const uint64_t *vals, size_t n) {
         s32[i] = (uint32_t)vals[i];
     }
     qsort(s32, n, 4, u32cmp_corpus);
+    if (M16) {
+        /* analysis helpers report real properties of the data */
+        uint64_t mx64 = 0;
+        uint32_t mx32 = 0;
+        int sorted64 = 1, sorted32 = 1;
+        for (size_t i = 0; i < n; i++) {
+            mx64 = vals[i] > mx64 ? vals[i] : mx64;
+            mx32 = v32[i] > mx32 ? v32[i] : mx32;
+            if (i && vals[i] < vals[i - 1]) {
+                sorted64 = 0;
+            }
+            if (i && v32[i] < v32[i - 1]) {
+                sorted32 = 0;
+            }
+        }
+        int b64 = mx64 ? 64 - __builtin_clzll(mx64) : 0, b32 = mx32 ? 32 - __builtin_clz(mx32) : 0;
+        uint32_t *in32h = (uint32_t *)vh_gb_get(G_IN, n * 4, -1);
+        memcpy(in32h, v32, n * 4);
+        int g32 = -1, s32r = -1;
+        if (LIBCALL("BP128.MaxBitWidth32/IsSorted32", "helpers", (g32 = varintBP128MaxBitWidth32(in32h, n), s32r = varintBP128IsSorted32(in32h, n)))) {
+            if (g32 != b32 || s32r != sorted32 || varintBP128BitsNeeded32(mx32) != b32) {
+                AFAIL("BP128.MaxBitWidth32/IsSorted32", "metadata_untrue", "%s: max bit width %d (truth %d), sorted %d (truth %d)", cur_desc, g32, b32, s32r, sorted32);
+            }
+        }
+        uint64_t *in64h = in_vals(vals, n);
+        int g64 = -1, s64r = -1;
+        if (LIBCALL("BP128.MaxBitWidth64/IsSorted64", "helpers", (g64 = varintBP128MaxBitWidth64(in64h, n), s64r = varintBP128IsSorted64(in64h, n)))) {
+            if (g64 != b64 || s64r != sorted64 || varintBP128BitsNeeded64(mx64) != b64) {
+                AFAIL("BP128.MaxBitWidth64/IsSorted64", "metadata_untrue", "%s: max bit width %d (truth %d), sorted %d (truth %d)", cur_desc, g64, b64, s64r, sorted64);
+            }
+        }
+    }
     for (int delta = 0; delta < 2; delta++) {
         const uint32_t *src = delta ? s32 : v32;
         uint32_t *in32 = (uint32_t *)vh_gb_get(G_IN, n * 4, -1);
@@ -1269,6 +1314,7 @@ int main(int argc, char **argv) {
     vh_gb_init(G_ENC, 20 * CORPUS_MAXN + (1 << 16));
     vh_gb_init(G_OUT, 8 * CORPUS_MAXN + 4096);
     vh_gb_init(G_IN, 8 * CORPUS_MAXN + 4096);
+    vh_gb_init(G_AUX, 1 << 16);
     vm_init((size_t)512 << 20);
     vh_infostr("max_array_length", "%zu", maxn);
 
